@@ -1059,6 +1059,10 @@ M('C10', 'calc_H_bond_from_MPO reads the flag from the model (original defect)',
             # represented H = H_MPO + h.c.""", """        if self.explicit_plus_hc:
             # represented H = H_MPO + h.c.""", 'ATTR-defined')
 
+M('C10', "AKLTChain logs with the non-existent self.name (original defect)", 'tenpy/models/aklt.py',
+  "self.logger.info('%s: set conserve to %s', self.__class__.__name__, conserve)",
+  "self.logger.info('%s: set conserve to %s', self.name, conserve)", 'ATTR-defined')
+
 # ---------------------------------------------------------------- C16 / C19
 M('C16', 'GMRES restart: relative residual norm used for normalisation (round-3 seed b)', KRY,
   """        self.total_error.append([npc.norm(self.rs[-1]) / self.b_norm])
